@@ -431,12 +431,8 @@ impl ValueTable {
 			if filled == 0 {
 				filled = 1;
 			}
-			if last_removed >= filled {
-				return Err(crate::error::Error::Corruption(format!(
-					"Bad removed ref {} out of {}",
-					last_removed, filled
-				)))
-			}
+			// The header is only checked after the log has been replayed (see `refresh_metadata`): a
+			// crash in the middle of a header update leaves it inconsistent until then.
 			log::debug!(target: "parity-db", "Opened value table {} with {} entries, entry_size={}, removed={}", id, filled, entry_size, last_removed);
 		}
 
@@ -1125,6 +1121,12 @@ impl ValueTable {
 		let mut filled = header.filled();
 		if filled == 0 {
 			filled = 1;
+		}
+		if last_removed >= filled {
+			return Err(crate::error::Error::Corruption(format!(
+				"Bad removed ref {} out of {}",
+				last_removed, filled
+			)))
 		}
 		self.last_removed.store(last_removed, Ordering::Relaxed);
 		self.filled.store(filled, Ordering::Relaxed);
